@@ -411,6 +411,47 @@ Proof.
   exists s, f. auto.
 Qed.
 
+(** ** ... not in the store either *)
+Theorem inv_store : forall st, Inv st -> store_tight st.
+Proof.
+  intros st H. unfold store_tight, live_at. split; [apply (inv_kv _ H)|apply (inv_kvrecs _ H)].
+Qed.
+
+Theorem store_tight_all : forall st ops, Inv st -> store_tight (exec st ops).
+Proof. intros st ops H. apply inv_store. apply invariant_exec. exact H. Qed.
+
+Theorem store_tight_b_correct : forall st, store_tight_b st = true <-> store_tight st.
+Proof.
+  intro st. unfold store_tight_b, store_tight, kvfabs_tight, kvrecs_tight.
+  rewrite !andb_true_iff, !forallb_forall. split.
+  - intros [Hk Hr]. split; intros x Hin; apply live_at_b_iff; auto.
+  - intros [Hk Hr]. split; intros x Hin; apply live_at_b_iff; auto.
+Qed.
+
+(** an incarnation that is not in the table (and was drawn before) never comes back *)
+Theorem incarnation_never_returns :
+  forall st ops c, Inv st -> c < st_ninc st -> (forall f, In f (st_fabs st) -> f_inc f <> c) ->
+    forall f, In f (st_fabs (exec st ops)) -> f_inc f <> c.
+Proof.
+  intros st ops c H Hc Hg. destruct (gone_exec st ops c H (conj Hc Hg)) as [_ Hg']. exact Hg'.
+Qed.
+
+(** after RemoveFabric answered OK neither a stored copy of the fabric nor a stored record of
+    its index is left (what an expiry or a restart could reload) *)
+Theorem removed_not_reloadable :
+  forall st sid i f st', Inv st -> fget i (st_fabs st) = Some f ->
+    step st (ORemove sid i) = (st', StOk) ->
+    fget i (st_kvfabs st') = None /\ (forall r, In r (st_kvrecs st') -> r_fab r <> i).
+Proof.
+  intros st sid i f st' H G Hs. unfold step in Hs. cbn [step_fx] in Hs.
+  destruct (sess_ctx st sid) as [s|]; [|discriminate Hs].
+  destruct (negb (allowed st s)); [discriminate Hs|].
+  destruct (i =? 0); [discriminate Hs|].
+  rewrite G in Hs. inversion Hs; subst st'. cbn [drop_bound fx_drop_bound repaired]. sp. split.
+  - apply fget_fdel_eq.
+  - intros r Hr. apply In_recs_drop in Hr. tauto.
+Qed.
+
 (** ** Frame *)
 Lemma rp_frame : forall i keep l, others_sess i true (remove_pase keep l) = others_sess i true l.
 Proof.
@@ -558,7 +599,9 @@ Proof.
   rewrite !andb_true_iff in Hb. destruct Hb as [[[_ _] _] B4].
   pose proof (proj2 (tight_b_correct st1) (inv_tight _ H1)) as Ht. unfold tight_b in Ht.
   rewrite !andb_true_iff in Ht. destruct Ht as [[B1 B2] B3].
-  unfold step_verdict. rewrite B1, B2, B3, B4. cbn [app].
+  pose proof (proj2 (store_tight_b_correct st1) (inv_store _ H1)) as Hst. unfold store_tight_b in Hst.
+  rewrite andb_true_iff in Hst. destruct Hst as [B5 B6].
+  unfold step_verdict. rewrite B1, B2, B3, B4, B5, B6. cbn [app andb].
   assert (Hframe : match removes st o with
                    | Some (i, pase) => if negb (status_ok r1) || frame_ok i pase st st1 then [] else [5]
                    | None => []
@@ -587,14 +630,54 @@ Proof.
     unfold resume_ok. rewrite R, G. apply N.eqb_eq in E. rewrite E. reflexivity.
 Qed.
 
-Theorem monitor_model_clean :
-  forall st ops, Inv st -> monitor st (combine ops (snd (run st ops))) = [].
+(** *** Trace clause: no removed incarnation returns *)
+Lemma memN_In : forall x l, memN x l = true <-> In x l.
 Proof.
-  intros st ops. revert st. induction ops as [|o ops IH]; intros st H; [reflexivity|].
+  intros x l. unfold memN. rewrite existsb_exists. split.
+  - intros (y & Hy & E). apply N.eqb_eq in E. subst y. exact Hy.
+  - intro Hin. exists x. split; [exact Hin|apply N.eqb_refl].
+Qed.
+
+Lemma returns_b_clean : forall seen pre post,
+  (forall c, In c seen -> c < st_ninc pre) -> tbl_ok pre post -> returns_b seen pre post = false.
+Proof.
+  intros seen pre post Hseen [_ Hf]. unfold returns_b.
+  destruct (existsb _ (st_fabs post)) eqn:E; [|reflexivity]. exfalso.
+  apply existsb_exists in E. destruct E as (f' & Hin & Hp). apply andb_true_iff in Hp.
+  destruct Hp as [Hm Hn]. apply memN_In in Hm. apply negb_true_iff in Hn.
+  destruct (Hf f' Hin) as [Hl|(f & Hf1 & Ef)].
+  - specialize (Hseen _ Hm). lia.
+  - assert (Hc : memN (f_inc f') (incs (st_fabs pre)) = true).
+    { apply memN_In. unfold incs. apply in_map_iff. exists f. auto. }
+    rewrite Hc in Hn. discriminate Hn.
+Qed.
+
+Lemma monitor_from_clean : forall ops st seen,
+  Inv st -> (forall c, In c seen -> c < st_ninc st) ->
+  monitor_from seen st (combine ops (snd (run st ops))) = [].
+Proof.
+  induction ops as [|o ops IH]; intros st seen H Hseen; [reflexivity|].
   unfold run in *. cbn [run_fx]. destruct (step_fx repaired st o) as [st1 r1] eqn:Es.
   assert (H1 : Inv st1).
   { pose proof (invariant_step st o H) as Hi. unfold step in Hi. rewrite Es in Hi. exact Hi. }
-  specialize (IH st1 H1). destruct (run_fx repaired st1 ops) as [st2 tr] eqn:Er.
-  cbn [snd combine monitor] in *. rewrite IH.
-  rewrite (step_verdict_clean st o st1 r1 H Es). reflexivity.
+  assert (Ht : tbl_ok st st1).
+  { pose proof (step_tbl st o H) as Hi. unfold step in Hi. rewrite Es in Hi. exact Hi. }
+  assert (Hseen1 : forall c, In c (seen ++ incs (st_fabs st1)) -> c < st_ninc st1).
+  { intros c Hc. apply in_app_iff in Hc. destruct Hc as [Hc|Hc].
+    - specialize (Hseen c Hc). destruct Ht as [Hn _]. lia.
+    - unfold incs in Hc. apply in_map_iff in Hc. destruct Hc as (f & <- & Hf).
+      apply (inv_fresh _ H1); exact Hf. }
+  specialize (IH st1 _ H1 Hseen1). destruct (run_fx repaired st1 ops) as [st2 tr] eqn:Er.
+  cbn [snd combine monitor_from] in *. rewrite IH.
+  rewrite (step_verdict_clean st o st1 r1 H Es), (returns_b_clean seen st st1 Hseen Ht). reflexivity.
+Qed.
+
+Theorem monitor_model_clean :
+  forall st ops, Inv st -> monitor st (combine ops (snd (run st ops))) = [].
+Proof.
+  intros st ops H. unfold monitor. apply monitor_from_clean; [exact H|].
+  intros c Hc. apply in_app_iff in Hc. unfold incs in Hc.
+  destruct Hc as [Hc|Hc]; apply in_map_iff in Hc; destruct Hc as (f & <- & Hf).
+  - apply (inv_fresh _ H); exact Hf.
+  - destruct (TInv_kv _ H) as [Hfr _]. apply Hfr; exact Hf.
 Qed.
